@@ -53,6 +53,7 @@ struct Config {
   bool trackInit = false;      // report reads of never-written bytes of stack objects and of regions marked "uninit"
   bool dedupe = false;         // cross-path state deduplication at merge blocks         // undecided iterations of one branch before widening kicks in
   std::string reportRegion;
+  std::set<std::string> traceRegions;   // regions whose read offsets (loads, contract reads, copy sources) are recorded per path
   int64_t reportLimit = -1;       // track the set of byte values written below this offset of the report region
   std::string wsetResetAfter;     // reset that set when this function returns (the failure token writer)
   std::vector<FieldSpec> fields;   // field map of the data object (fieldmap id 0)
@@ -69,6 +70,7 @@ struct State {
   std::vector<Alarm> alarms;
   uint64_t nW = 0, nR = 0, nIdx = 0, nCall = 0;
   std::vector<std::string> events;
+  std::map<int, std::bitset<1024>> readBits;      // traced regions: offsets that some load / contract read / copy source may touch
   int64_t steps = 0;
   bool aborted = false;
   std::string abortMsg;
@@ -86,6 +88,15 @@ inline void addEvent(State &S, const std::string &e) {
   for (auto &x : S.events) if (x == e) return;
   S.events.push_back(e);
 }
+
+inline void markRead(State &S, int reg, i128 lo, i128 hi) {   // [lo,hi)
+  if (reg < 0 || !S.regions[reg].traced) return;
+  auto &b = S.readBits[reg];
+  if (lo < 0) lo = 0;
+  if (hi > 1024) hi = 1024;
+  for (i128 i = lo; i < hi; i++) b.set((size_t)i);
+}
+inline std::string rangeJ(i128 lo, i128 hi) { return "[" + i128s(lo) + "," + i128s(hi) + "]"; }
 
 inline unsigned lineOf(const Instruction *I) { return I && I->getDebugLoc() ? I->getDebugLoc().getLine() : 0; }
 
